@@ -1,17 +1,18 @@
 (* Model of parse.String (parse_string.go) and parse.Map (map.go): dispatch on
    the kind of the target type.  Definitions only.
    Not modelled here: float and complex kinds (strconv.ParseFloat; see the
-   Section-parametrised wrappers in ParseIntProofs.v), time.Duration
-   (time.ParseDuration).  uintptr is not among parse.String's kinds (it is an
+   Section-parametrised wrappers in ParseIntProofs.v).  time.Duration goes
+   through Text/ParseDuration.v.  uintptr is not among parse.String's kinds (it is an
    error there); named map types differing from map[string][]string and
    map[string]struct{} take the generic map path as in the source. *)
 From Coq Require Import List NArith ZArith Bool.
-From Dials Require Import Base.Outcome Base.Runes Text.ParseInt Text.Quote Text.Split.
+From Dials Require Import Base.Outcome Base.Runes Text.ParseInt Text.Quote Text.Split Text.ParseDuration.
 Import ListNotations.
 Open Scope N_scope.
 
 Inductive ty :=
 | TStr | TBool | TInt (w : swidth) | TUint (w : uwidth)
+| TDur                      (* time.Duration: kind Int64, parsed by time.ParseDuration *)
 | TSlice (t : ty)
 | TSet                      (* map[string]struct{} *)
 | TMss                      (* map[string][]string *)
@@ -23,7 +24,8 @@ Inductive pval :=
 | VList (l : list pval)
 | VSet (l : list str)
 | VMss (m : list (str * list str))
-| VMap (m : list (pval * pval)).
+| VMap (m : list (pval * pval))
+| VOpaque.                  (* a duration whose float64 fraction step is not exact in the model: value not determined *)
 
 Definition e_kind : N := 8.
 
@@ -41,7 +43,7 @@ Definition format_bool (b : bool) : str :=
    the source that this model does not cover) *)
 Definition scalar_kind (t : ty) : bool :=
   match t with
-  | TStr | TBool | TInt _ => true
+  | TStr | TBool | TInt _ | TDur => true
   | TUint w => match w with UPtr => false | _ => true end
   | _ => false
   end.
@@ -70,6 +72,7 @@ Section Dispatch.
     | TStr => Ok (VStr s)
     | TBool => omap VBool (parse_bool s)
     | TInt w => omap VInt (parse_number_int w s)
+    | TDur => omap (fun r : Z * bool => if snd r then VOpaque else VInt (fst r)) (parse_duration_x s)
     | TUint w => match w with
                  | UPtr => Err e_kind
                  | _ => omap (fun n => VInt (Z.of_N n)) (parse_number_uint w s)
@@ -79,7 +82,7 @@ Section Dispatch.
 
   Fixpoint parse_string (t : ty) (s : str) : outcome pval :=
     match t with
-    | TStr | TBool | TInt _ | TUint _ => parse_scalar t s
+    | TStr | TBool | TInt _ | TUint _ | TDur => parse_scalar t s
     | TSlice e =>
         l <- string_slice isp s ;;
         match e with
